@@ -1,46 +1,65 @@
-(* Pinned statements of property C03. Nothing else lives here. *)
+(* Pinned statements of property C03. Nothing else lives here.
+   DE.Membership models the code as it is now: is_single_node_cluster = initial_cluster_size == 1 && voters().is_empty(). *)
 From Coq Require Import NArith List.
-From DE Require Import Val Membership proofs.C03 proofs.C03fix.
+From DE Require Import Val Membership proofs.C03 proofs.C03hist.
 Import ListNotations.
 Open Scope N_scope.
 
-(* the shortcut (win, no vote request sent) is taken exactly by nodes whose INITIAL configuration had one node *)
-Theorem C03_shortcut_taken_iff_booted_alone :
-  forall (self : N) (init : list node) (cs : list change) (rs : list N),
-    (won (run (mk self init) cs) rs = true /\ asked (run (mk self init) cs) rs = false) <-> length init = 1%nat.
-Proof. exact shortcut_taken_iff_booted_alone. Qed.
-Print Assumptions C03_shortcut_taken_iff_booted_alone.
-
-(* known finding: booted alone, expanded to three voters, still elects itself without votes *)
-Theorem C03_shortcut_refuted :
-  exists (self : N) (init : list node) (cs : list change) (rs : list N),
-    (1 <= length init <= 5)%nat /\
-    let m := run (mk self init) cs in
-    won m rs = true /\ asked m rs = false /\ granted (length (voters m)) rs = 0 /\ voters m = [2; 3].
-Proof. exact shortcut_refuted. Qed.
-Print Assumptions C03_shortcut_refuted.
-
-(* the property, for every history outside that class *)
-Theorem C03_shortcut_sound_outside_known :
+(* THE FULL STATEMENT, for all membership histories from any initial configuration, at any election moment *)
+Theorem C03_shortcut_sound :
   forall (self : N) (init : list node) (cs : list change) (rs : list N),
     let m := run (mk self init) cs in
-    ~ (length init = 1%nat /\ voters m <> []) ->
     won m rs = true ->
     (granted (length (voters m)) rs = 0 -> voters m = []) /\
     (voters m <> [] ->
        asked m rs = true /\ 1 <= granted (length (voters m)) rs /\
        N.of_nat (length (vset m)) < 2 * (1 + granted (length (voters m)) rs)).
-Proof. exact shortcut_sound_outside_known. Qed.
-Print Assumptions C03_shortcut_sound_outside_known.
+Proof. exact shortcut_sound. Qed.
+Print Assumptions C03_shortcut_sound.
 
-(* the full statement, on the model of the suggested fix (is_single_node_cluster also requires voters() to be empty) *)
-Theorem C03_full_statement_on_fixed_model :
+(* the shortcut (win, no vote request sent) is taken exactly by a node that booted alone and has no other voter NOW *)
+Theorem C03_shortcut_taken_iff :
   forall (self : N) (init : list node) (cs : list change) (rs : list N),
     let m := run (mk self init) cs in
-    won_fixed m rs = true ->
-    (granted (length (voters m)) rs = 0 -> voters m = []) /\
-    (voters m <> [] ->
-       1 <= granted (length (voters m)) rs /\
-       N.of_nat (length (vset m)) < 2 * (1 + granted (length (voters m)) rs)).
-Proof. exact shortcut_sound_fixed. Qed.
-Print Assumptions C03_full_statement_on_fixed_model.
+    (won m rs = true /\ asked m rs = false) <-> (length init = 1%nat /\ voters m = []).
+Proof. exact shortcut_taken_iff. Qed.
+Print Assumptions C03_shortcut_taken_iff.
+
+(* second sentence of the property: started as a single node, expanded later -> a real majority of the current voters *)
+Theorem C03_expanded_single_node_needs_majority :
+  forall (init : list node) (self : N) (cs : list change) (rs : list N),
+    length init = 1%nat ->
+    let m := run (mk self init) cs in
+    voters m <> [] -> won m rs = true ->
+    asked m rs = true /\ N.of_nat (length (vset m)) < 2 * (1 + granted (length (voters m)) rs).
+Proof. exact expanded_single_node_needs_majority. Qed.
+Print Assumptions C03_expanded_single_node_needs_majority.
+
+(* residue of the fix, a liveness matter outside this property: configured with several nodes, shrunk to itself -> never wins *)
+Theorem C03_residue_shrunk_cluster_never_elects :
+  forall (self : N) (init : list node) (cs : list change) (rs : list N),
+    length init <> 1%nat -> voters (run (mk self init) cs) = [] -> won (run (mk self init) cs) rs = false.
+Proof. exact shrunk_cluster_never_elects. Qed.
+Print Assumptions C03_residue_shrunk_cluster_never_elects.
+
+(* ---- HISTORY: the variant before the fix (is_single_node_cluster = initial_cluster_size == 1) ---- *)
+Theorem C03_history_v0_shortcut_taken_iff_booted_alone :
+  forall (self : N) (init : list node) (cs : list change) (rs : list N),
+    (won_v0 (run (mk self init) cs) rs = true /\ asked_v0 (run (mk self init) cs) rs = false) <-> length init = 1%nat.
+Proof. exact v0_shortcut_taken_iff_booted_alone. Qed.
+Print Assumptions C03_history_v0_shortcut_taken_iff_booted_alone.
+
+Theorem C03_history_v0_shortcut_refuted :
+  exists (self : N) (init : list node) (cs : list change) (rs : list N),
+    (1 <= length init <= 5)%nat /\
+    let m := run (mk self init) cs in
+    won_v0 m rs = true /\ asked_v0 m rs = false /\ granted (length (voters m)) rs = 0 /\ voters m = [2; 3].
+Proof. exact v0_shortcut_refuted. Qed.
+Print Assumptions C03_history_v0_shortcut_refuted.
+
+Theorem C03_history_v0_agrees_outside_known_class :
+  forall (self : N) (init : list node) (cs : list change) (rs : list N),
+    let m := run (mk self init) cs in
+    ~ (length init = 1%nat /\ voters m <> []) -> elect_v0 m rs = elect m rs.
+Proof. exact v0_agrees_outside_known_class. Qed.
+Print Assumptions C03_history_v0_agrees_outside_known_class.
